@@ -119,6 +119,9 @@ pub struct Ctx<'a> {
     pub violated: bool,
     /// this case exercised the mechanism the property is about
     pub nontrivial: bool,
+    /// C13 runs other monitors' workloads and owns only the "no operation panics" verdict:
+    /// in this mode every non-panic violation is dropped (it belongs to another property)
+    pub panic_only: bool,
 }
 
 impl<'a> Ctx<'a> {
@@ -138,6 +141,7 @@ impl<'a> Ctx<'a> {
             notes: Vec::new(),
             violated: false,
             nontrivial: false,
+            panic_only: false,
         }
     }
     pub fn note(&mut self, k: &str, v: J) {
@@ -165,6 +169,10 @@ impl<'a> Ctx<'a> {
         self.st.cells.insert(c);
     }
     pub fn violation(&mut self, sig: &str, detail: String) {
+        if self.panic_only && !sig.contains("/panic/") {
+            self.st.count("ignored.other-property-violation-in-panic-only-mode");
+            return;
+        }
         self.violated = true;
         self.st.violations_total += 1;
         if self.st.violations.len() < 40 {
